@@ -298,6 +298,27 @@ pub fn cread(a: &[Sexp]) -> Sexp {
                 break;
             }
         }
-        Sexp::tag("obs", vec![ok(vec![schema, meta]), Sexp::tag("items", items)])
+        // the same file through the deserializing iterator (Reader::into_deser_iter, block.rs read_next_deser):
+        // how many items it delivers before the first error, how it ends, and whether anything follows an error
+        let deser = match Reader::new(&file[..]) {
+            Err(_) => Sexp::tag("open-err", vec![]),
+            Ok(r) => {
+                let (mut good, mut late, mut end, mut m) = (0u64, 0u64, "clean", 0usize);
+                for it in r.into_deser_iter::<crate::universal::Universal>() {
+                    match it {
+                        Ok(_) if end == "clean" => good += 1,
+                        Ok(_) => late += 1,
+                        Err(_) => end = "err",
+                    }
+                    m += 1;
+                    if m > 50_000 {
+                        end = "runaway";
+                        break;
+                    }
+                }
+                Sexp::tag("deser", vec![Sexp::num(good), Sexp::Sym(end.into()), Sexp::num(late)])
+            }
+        };
+        Sexp::tag("obs", vec![ok(vec![schema, meta]), Sexp::tag("items", items), deser])
     })
 }
